@@ -163,6 +163,12 @@ func oneShotCancelable(kind string, asserts []*Term, want []*Term, timeoutMS int
 		cmd = exec.Command("/usr/bin/z3", "-in", "-smt2", fmt.Sprintf("-T:%d", secs))
 	case "z3-new":
 		cmd = exec.Command("z3-new", "-in", "-smt2", fmt.Sprintf("-T:%d", secs))
+	case "z3:seed", "z3-new:seed":
+		bin := "/usr/bin/z3"
+		if kind == "z3-new:seed" {
+			bin = "z3-new"
+		}
+		cmd = exec.Command(bin, "-in", "-smt2", fmt.Sprintf("-T:%d", secs), "smt.random_seed=7", "sat.random_seed=7", "smt.arith.random_initial_value=true")
 	case "cvc5":
 		cmd = exec.Command("cvc5", "--lang=smt2", "--produce-models", fmt.Sprintf("--tlimit=%d", timeoutMS))
 	default:
